@@ -33,9 +33,12 @@ def main():
     try:
         shutil.copytree(os.path.dirname(mdir), os.path.join(wt, "_mut"))
         demo = meta["demo_cmd"].replace(os.path.dirname(os.path.dirname(mdir)), wt)
+        import re
+        def failed(rc, out):
+            return rc != 0 or re.search(r"^(--- FAIL|FAIL\b|panic:)", out, re.M) is not None
         rc, out = run(demo, wt)
         rec["ran"].append({"step": "demo on unchanged tree", "cmd": demo, "exit": rc})
-        if rc != 0:
+        if failed(rc, out):
             ok = False; rec["problem"] = "demo fails on the unchanged tree: " + out[-600:]
         run("git checkout -q -- . && git clean -fdq -e _mut", wt)
         rc, out = run(["git", "apply", os.path.join(mdir, "patch.diff")], wt)
@@ -59,7 +62,7 @@ def main():
                     ok = False; rec["problem"] = "existing tests fail with the change: " + "; ".join(real[:5])
             rc, out = run(demo, wt)
             rec["ran"].append({"step": "demo with the change", "cmd": demo, "exit": rc, "tail": out[-500:]})
-            if rc == 0:
+            if not failed(rc, out):
                 ok = False; rec["problem"] = "demo still passes with the change"
         if ok:
             # remove demo files the demo_cmd copied into the tree, keep the patch
